@@ -38,7 +38,7 @@ _CALLED = {}
 
 
 def compile_time_only(db, fid):
-    """a private free function that no function body calls (it can then only run during constant evaluation, where an overflow is a compile error)"""
+    """a private free function or inherent method that no function body calls or mentions (it can then only run during constant evaluation, where an overflow is a compile error, or not at all)"""
     if id(db) not in _CALLED:
         called = set()
         for f in db.fns.values():
@@ -51,7 +51,16 @@ def compile_time_only(db, fid):
     f = db.fns.get(fid)
     base = fid.split('::{closure#')[0]
     fb = db.fns.get(base)
-    return fb is not None and 'Public' not in str(fb.get('vis')) and not fb.get('impl') and base not in _CALLED[id(db)]
+    if fb is None or 'Public' in str(fb.get('vis')) or base in _CALLED[id(db)]:
+        return False
+    if not fb.get('impl'):
+        return True
+    # a private inherent method without a caller: dead unless some body mentions it as a function value
+    if (fb['impl'] or {}).get('trait'):
+        return False
+    if ('txt', id(db)) not in _CALLED:
+        _CALLED[('txt', id(db))] = {g['id']: str(g['blocks']) + str(g.get('promoted') or '') for g in db.fns.values()}
+    return not any(base in txt for gid, txt in _CALLED[('txt', id(db))].items() if gid.split('::{closure#')[0] != base)
 
 
 def collect(jobs):
